@@ -487,6 +487,9 @@ def run(rep: Report) -> None:
                       "operator on every path (a converted branch with another operator contradicts the same-unit branch)",
                       fi.where(wrong[0] if wrong else None))
     override_discipline(rep, prog)
+    from .c06 import immutability
+    rep.rule("R06.6", "value objects carry no state assigned outside their constructors (no cached hash: equal quantities hash equal in every process) - shared with C06", floor=10)
+    immutability(rep, prog, resolver)
     check_comparisons(rep, prog, resolver, "R06.2")
     rep.assume("Quantity equality/ordering compare physical values (R06.2); Python's reflected-operand protocol for NotImplemented")
     rep.not_decided += ["trichotomy and sorted() on physical values numerically (floating-point ties)",
